@@ -410,12 +410,12 @@ def bridged(line):
     if not t:
         return False
     o = t[0]
-    if o in ('new', 'newv', 'newn', 'pbm', 'newg', 'newm', 'del', 'insm', 'era', 'erar', 'pop', 'clr', 'rsz', 'rsv', 'stf', 'asn', 'asc', 'asm', 'swp', 'appc', 'appm'):
+    if o in ('at', 'get', 'new', 'newv', 'newn', 'pbm', 'newg', 'newm', 'del', 'insm', 'era', 'erar', 'pop', 'clr', 'rsz', 'rsv', 'stf', 'asn', 'asc', 'asm', 'swp', 'appc', 'appm'):
         return True
     if o == 'newc':
-        return len(t) > 3 and t[3] != '-'
+        return True
     if o == 'newr':
-        return len(t) > 2 and t[2] in ('fw', 'ra')
+        return len(t) > 2     # every iterator kind (single-pass: MOp.ctorInput)
     if o in ('pb', 'ins', 'insn'):
         return True
     if o == 'rszv':
